@@ -263,6 +263,17 @@ CHECKS["C16"] = dict(
     ],
 )
 
+CHECKS["C17"] = dict(
+    level_text="The real WriteTar walk closure and archive/tar.FileInfoHeader are executed symbolically over synthetic views; archive/tar.Writer is replaced by a recording writer that keeps the real writer's size bookkeeping. For every view inside the bounds the solver shows: members in walk order, directories with a trailing slash, type flag by entry class, link members with size 0 and no payload, a payload exactly when the entry is a regular non-link file of positive size and then exactly the view's bytes, mode/uid/gid/device numbers/mtime-to-the-second copied, xattrs as SCHILY.xattr records, and the archive closes cleanly.",
+    level_note="Bounds: view {d/, d/f (0..1 quick / 0..2 thorough symbolic bytes, optional xattr), h = hard link, l = symlink, p = fifo / char device with symbolic 12/8-bit device numbers}; permission bits symbolic on all entries, setuid/setgid/sticky symbolic on one entry per obligation; uid/gid symbolic below 2^21; mtimes from 2 values. The byte-level USTAR/PAX encoding, long names, ids beyond the octal field and extraction are trusted standard library behaviour (natively the sampled paths are written with the real writer and re-read with archive/tar.Reader). " + BASE_TRUST,
+    assumptions=["view consistency: Size of a regular non-link entry equals the length of what Open yields", "archive/tar.Writer is a recording stand-in in the symbolic run"],
+    obligations=[
+        ob("VH_C17_tar", dict(MAXB=1, SPECIAL=1), covers=["regular", "link", "xattr", "done"], bounds="files <=1 byte, special bits symbolic on d/f"),
+        ob("VH_C17_tar", dict(MAXB=2, SPECIAL=0), T, covers=["regular", "link", "xattr", "done"], bounds="files <=2 bytes, special bits symbolic on d"),
+        ob("VH_C17_tar", dict(MAXB=2, SPECIAL=2), T, covers=["regular", "link", "xattr", "done"], bounds="files <=2 bytes, special bits symbolic on the third entry"),
+    ],
+)
+
 NOT_APPLICABLE = {
     "C08": "quantifies over schedules and includes data-race freedom and non-overlap of stream calls; the hand-written SSA executor runs goroutines under one cooperative schedule and cannot enumerate interleavings or observe races, and no Go engine that can is installed (DESIGN.md §7)",
 }
